@@ -563,10 +563,8 @@ impl Tcp {
                 None => return Err(Protocol::Tcp(Segment::Rst)),
             },
             Segment::Rst => {
-                if self.sockets.get(&SocketPair::new(dst, src)).is_some() {
-                    self.sockets
-                        .swap_remove(&SocketPair::new(dst, src))
-                        .unwrap();
+                if let Some(sock) = self.sockets.swap_remove(&SocketPair::new(dst, src)) {
+                    sock.flow_control.wake_writer();
                 }
             }
         };
@@ -600,7 +598,20 @@ impl Tcp {
     /// Remove the stream socket without decrementing the half-close refcount.
     /// Used when sending RST: the connection is torn down immediately.
     pub(crate) fn reset_stream(&mut self, pair: SocketPair) {
-        self.sockets.swap_remove(&pair);
+        if let Some(sock) = self.sockets.swap_remove(&pair) {
+            sock.flow_control.wake_writer();
+        }
+    }
+
+    pub(crate) fn has_stream(&self, pair: SocketPair) -> bool {
+        self.sockets.contains_key(&pair)
+    }
+
+    /// The accepting side shares the connector's flow control (inverted).
+    pub(crate) fn set_flow_control(&mut self, pair: SocketPair, flow_control: BidiFlowControl) {
+        if let Some(sock) = self.sockets.get_mut(&pair) {
+            sock.flow_control = flow_control;
+        }
     }
 
     pub(crate) fn close_stream_half(&mut self, pair: SocketPair) {
